@@ -197,6 +197,22 @@ def apply_op(ctx, st, op, case):
                                       'transaction %s' % (name, outp[0][:12], outp[1], st.spent[outp][:12]),
                                       case)
             _after_broadcast(st, t)
+        elif name == 'send_outputs':
+            # a payment to two recipients (one foreign, one own key) handed over as Output objects, the other documented
+            # form of the recipient list, in the given or in random output order
+            from bitcoinlib.transactions import Output
+            bal = int(w.balance())
+            if bal > 10000:
+                own_keys = [k_ for k_ in st.keys if getattr(k_, 'account_id', 0) == 0] or st.keys
+                a1 = max(1000, bal * op['num'] // op['den'] // 2)
+                outs = [Output(a1, _foreign_addr(op['key']), network=NET),
+                        Output(a1 + 1, own_keys[op['key'] % len(own_keys)].address, network=NET)]
+                if op.get('own_first'):
+                    outs.reverse()
+                t = w.send(outs, broadcast=True, min_confirms=op.get('min_confirms', 1),
+                           random_output_order=bool(op.get('shuffle')))
+                _after_broadcast(st, t)
+                st.flags.add('recipients_as_output_objects')
         elif name == 'spend_output':
             # spend one specific output of an earlier broadcast transaction (selection restricted to its key)
             if st.sent:
@@ -517,6 +533,9 @@ def _strategy(ctx):
                                'unsigned_first': st.booleans()}),
         st.fixed_dictionaries({'op': st.just('restore'), 'pick': st.integers(0, 3), 'how': st.sampled_from(['store', 'send'])}),
         st.fixed_dictionaries({'op': st.just('restore'), 'pick': st.just(0), 'how': st.sampled_from(['store', 'send'])}),
+        st.fixed_dictionaries({'op': st.just('send_outputs'), 'key': st.integers(0, 5), 'num': st.integers(1, 5),
+                               'den': st.just(10), 'min_confirms': st.sampled_from([0, 1]), 'shuffle': st.booleans(),
+                               'own_first': st.booleans()}),
         st.fixed_dictionaries({'op': st.just('resend_object'), 'pick': st.integers(0, 3), 'how': st.sampled_from(['store', 'send'])}),
         st.fixed_dictionaries({'op': st.just('resend_object'), 'pick': st.just(0), 'how': st.sampled_from(['store', 'send'])}),
         st.just({'op': 'new_account'}), st.just({'op': 'new_account', 'fundable': True}),
